@@ -17,7 +17,9 @@ let c14_table : (string * (Z.t list -> Z.t list option)) list = Model.[
   "ext2inv", run_ext2inv; "ext4inv", run_ext4inv; "ext5inv", run_ext5inv;
   "ext2frob", run_ext2frob; "ext4frob", run_ext4frob; "ext5frob", run_ext5frob;
   "ext2sq", run_ext2sq; "ext4sq", run_ext4sq; "ext5sq", run_ext5sq;
-  "const_w", run_const_w; "const_dth", run_const_dth ]
+  "const_w", run_const_w; "const_dth", run_const_dth;
+  "padd", run_padd; "psub", run_psub; "pmul", run_pmul; "pneg", run_pneg; "psquare", run_psquare;
+  "pinterleave_involution", run_pinterleave_involution ]
 
 let c01_table : (string * (Z.t list -> Z.t list option)) list = Model.[ "prog", run_prog; "plonkverify", run_plonkverify; "challenges", run_challenges ]
 
@@ -50,7 +52,7 @@ let c15_table : (string * (Z.t list -> Z.t list option)) list = Model.[
   "interp", run_interp; "baryw", run_baryw; "interpolate", run_interpolate; "interp2", run_interp2;
   "zpoc", run_zpoc; "zpoc_l0", run_zpoc_l0; "cosetshifts", run_cosetshifts ]
 
-let c05_table : (string * (Z.t list -> Z.t list option)) list = Model.[ "friverify", run_friverify ]
+let c05_table : (string * (Z.t list -> Z.t list option)) list = Model.[ "friverify", run_friverify; "aritybits", run_arity_bits; "friprove", run_friprove ]
 
 let c17_table : (string * (Z.t list -> Z.t list option)) list = Model.[
   "enc_u8", run_enc_u8; "enc_u32", run_enc_u32; "enc_usize", run_enc_usize; "enc_bool", run_enc_bool;
@@ -66,7 +68,22 @@ let c17_table : (string * (Z.t list -> Z.t list option)) list = Model.[
   "dec_circuitconfig", run_dec_circuitconfig; "dec_verifieronly", run_dec_verifieronly;
   "dec_openings", run_dec_openings; "dec_proof", run_dec_proof ]
 
-let tables = [ "c17", c17_table; "c05", c05_table; "c15", c15_table; "c13", c13_table; "c12", c12_table; "c14", c14_table; "c01", c01_table; "c16", c16_table; "plonk", c01_table ]
+let c02_table : (string * (Z.t list -> Z.t list option)) list = Model.[ "cpp", run_cpp ]
+let c08_table : (string * (Z.t list -> Z.t list option)) list = Model.[ "lkc", run_lkc; "clp", run_clp ]
+let c09_table : (string * (Z.t list -> Z.t list option)) list = Model.[
+  "l0lastb", run_l0lastb; "l0last", run_l0last; "consumer", run_consumer; "sat", run_sat;
+  "vanish", run_vanish; "starkid", run_starkid ]
+let c10_table : (string * (Z.t list -> Z.t list option)) list = Model.[
+  "lkcols", run_lkcols; "psums", run_psums; "lkeval", run_lkeval; "ctleval", run_ctleval; "ctlsum", run_ctlsum ]
+
+let c07_table : (string * (Z.t list -> Z.t list option)) list = Model.[
+  "evalbase", run_gate_evalbase; "gensat", run_gate_evalbase; "evalext", run_gate_evalext; "evalcirc", run_gate_evalext;
+  "basevsext", run_gate_basevsext; "generate", run_gate_generate; "genguard", run_gate_genguard; "pinned", run_gate_pinned;
+  "sizes", run_gate_sizes; "written", run_gate_written; "lowdeg", run_gate_lowdeg; "circuit_agrees", run_gate_circuit_agrees;
+  "absdeg", run_gate_absdeg; "filter", run_gate_filter; "evalfiltered", run_gate_evalfiltered;
+  "cosetnew", run_gate_cosetnew; "subgroup", run_gate_subgroup ]
+
+let tables = [ "c07", c07_table; "c02", c02_table; "c08", c08_table; "c09", c09_table; "c10", c10_table; "c17", c17_table; "c05", c05_table; "c15", c15_table; "c13", c13_table; "c12", c12_table; "c14", c14_table; "c01", c01_table; "c16", c16_table; "plonk", c01_table ]
 
 let split_ws s = List.filter (fun x -> x <> "") (String.split_on_char ' ' s)
 
@@ -98,7 +115,7 @@ let () =
                let res = (try show (f (List.map z args)) with Stack_overflow -> "stack_overflow") in
                incr n;
                Hashtbl.replace counts op (1 + try Hashtbl.find counts op with Not_found -> 0);
-               if res <> rhs then begin
+               if res <> rhs && not (res = "fail" && rhs = "panic") then begin
                  incr bad;
                  let short s = if String.length s > 300 then String.sub s 0 300 ^ "..." else s in
                  if !bad <= 50 then Printf.printf "MISMATCH %d | %s | model: %s\n" !lineno (short line) (short res)
